@@ -33,6 +33,16 @@ partial def tyOf (env : List (String × Sexp)) (fuel : Nat) : Sexp → Option Ty
       let t ← tyOf env fuel e
       some (.arr t (← lo.nat?) (← boundNat? hi))
   | .list [.atom "opt", e] => (tyOf env fuel e).map .opt
+  | .list (.atom "tuple" :: ts) => (ts.mapM (tyOf env fuel)).map .tuple
+  | .list [.atom "hash", k, v, lo, hi] => do
+      some (.hash (← tyOf env fuel k) (← tyOf env fuel v) (← lo.nat?) (← boundNat? hi))
+  | .list (.atom "struct" :: ms) =>
+      (ms.mapM fun (m : Sexp) => match m with
+        | Sexp.list [n, .atom k, t] => do
+            let name ← n.str?
+            let opt ← if k == "opt" then some true else if k == "req" then some false else none
+            some (name, opt, ← tyOf env fuel t)
+        | _ => none).map .struct
   | .list (.atom "var" :: t :: ts) => ((t :: ts).mapM (tyOf env fuel)).map .var
   | .list [.atom "al", .atom n] =>
       match fuel, env.find? (·.1 == n) with
@@ -47,6 +57,10 @@ partial def valOf : Sexp → Option Val
   | .list [.atom "u"] => some .undef
   | .list [.atom "d"] => some .default
   | .list (.atom "a" :: vs) => (vs.mapM valOf).map .arr
+  | .list (.atom "h" :: es) =>
+      (es.mapM fun (e : Sexp) => match e with
+        | Sexp.list [k, v] => do some (← valOf k, ← valOf v)
+        | _ => none).map .hash
   | _ => none
 
 def btOf : Sexp → Option BTy
@@ -93,6 +107,7 @@ partial def valStr : Val → String
   | .undef => "(u)"
   | .default => "(d)"
   | .arr vs => "(a" ++ String.join (vs.map fun v => " " ++ valStr v) ++ ")"
+  | .hash es => "(h" ++ String.join (es.map fun (k, v) => " (" ++ valStr k ++ " " ++ valStr v ++ ")") ++ ")"
 
 def recvTyOf : Sexp → Option RecvTy
   | .list [.atom "init"] => some .initDefault
